@@ -110,6 +110,7 @@ class Interp:
         self.extra_models = models or {}
         self.inline_derived = False
         self.call_sites = {}
+        self.auto_opaque = set()
         # opt-in: positions handed out by `enumerate` are the constants 0, 1, 2 ... (decides `if position > 0`)
         self.count_enumerate = False
         self.tsub = {}   # generic parameter name -> concrete type string, for the body being interpreted
@@ -403,10 +404,27 @@ class Interp:
         """interpret body `path` with argument values; returns list of (state, return value)"""
         body = self.f.bodies[path]
         st = st or State()
-        fid = self.new_frame(st)
-        for i, a in enumerate(args):
-            st.frames[fid][i + 1] = a
-        return self.run_body(body, st, fid, depth)
+        # a callee in which the enumeration of paths explodes (a pass over an expression tree, a big classifier called in
+        # a loop) is retried as an opaque call: what it computes is then a term, not a case split
+        base = st
+        for attempt in range(4):
+            st = base.fork() if attempt or True else base
+            fid = self.new_frame(st)
+            for i, a in enumerate(args):
+                st.frames[fid][i + 1] = a
+            n0 = self.npaths
+            try:
+                return self.run_body(body, st, fid, depth)
+            except PathLimit as e:
+                culprit = str(e.args[0]) if e.args else ""
+                while culprit in self.f.bodies and self.f.bodies[culprit].get("parent"):
+                    culprit = self.f.bodies[culprit]["parent"]
+                if not culprit or culprit == path or culprit in self.auto_opaque or culprit not in self.f.bodies:
+                    raise
+                self.auto_opaque.add(culprit)
+                self.notes.append("path limit in %s: kept opaque" % culprit)
+                self.npaths = n0
+        raise PathLimit(path)
 
     def run_body(self, body, st, fid, depth, stack=()):
         out = []
@@ -726,6 +744,10 @@ class Interp:
             # compiler-derived trait impls (Clone, PartialEq, Debug ...) are kept as opaque calls
             local = False
         forced = local and self.force_inline is not None and self.force_inline(self, st, path, args)
+        if local and not forced and (path in self.auto_opaque or self.tree_walker(path)):
+            # a recursive pass over an expression tree called from the code under analysis (collect names, substitute
+            # symbols ...): its effect is not what is being summarised, and unrolling it explodes
+            local = False
         if local and (forced or (not self.opaque(path) and path not in stack)) and depth < self.max_depth:
             if self.record_local_calls:
                 st.events.append(("call_local", path, tuple(self.resolve(st, a) for a in args)))
@@ -745,6 +767,35 @@ class Interp:
                 self.tsub = saved
             return res
         return self.opaque_call(st, fn, name, args)
+
+    def tree_walker(self, path):
+        """a crate-local function that takes an expression (by value or reference) and is recursive"""
+        memo = self.__dict__.setdefault("_walkers", {})
+        if path not in memo:
+            b = self.f.bodies.get(path)
+            ok = False
+            if b and not b.get("parent") and not b.get("coroutine_kind") and \
+                    any("expr::Expr" in self.f.ty_s(b["locals"][i]["ty"]) for i in range(1, b["arg_count"] + 1)):
+                import evalsum
+                seen, todo = set(), list(evalsum.local_callees(self.f, b))
+                for cl in self.f.closures_of(path):
+                    todo += list(evalsum.local_callees(self.f, cl))
+                while todo and not ok:
+                    q = todo.pop()
+                    if q == path:
+                        ok = True
+                        break
+                    if q in seen or q not in self.f.bodies:
+                        continue
+                    seen.add(q)
+                    if len(seen) > 60:
+                        break
+                    todo += list(evalsum.local_callees(self.f, self.f.bodies[q]))
+            # async functions are evaluation proper (handled by the await machinery), not passes over the tree
+            if ok and any(x.get("parent") == path and x.get("coroutine_kind") for x in self.f.raw["bodies"]):
+                ok = False
+            memo[path] = ok
+        return memo[path]
 
     def subst(self, ty_s):
         """apply the current generic-parameter substitution to a type string (whole-string or bracketed occurrences)"""
